@@ -86,16 +86,16 @@ CLAIMS = {
        "sentinel-filled arrays in 7 layouts, backing arrays compared before/after, returned buffers mutated and sources re-read.",
   note=TB + "Partial: the Go allocator and escape analysis are not modelled ('fresh' = not aliasing any buffer the model knows); h.Write is taken to only read its argument."),
  "C16": dict(
-  technique="Lean 4 proof about a footprint model (race freedom and solo-run equivalence for every interleaving, induction over the schedule) instantiated with regenerated facts + race-detector run",
-  text="Model-level theorem plus run-time evidence: under the footprint discipline (writes only to the receiver or fresh memory) no interleaving has a conflicting pair and every thread computes its solo result; "
-       "the discipline's premises (no write to package variables, no write through slice parameters, arguments never rebound) are re-derived from the source on every run. The harness built with -race runs 8 goroutines "
-       "per scenario over every API function with shared arguments and compares with sequential results.",
-  note=TB + "The Go memory model and scheduler are modelled, not verified; the race detector only observes executed schedules. Level 'other' for that reason."),
+  technique="Lean 4 proof over an interleaving/footprint model (race freedom and solo-run equivalence for every schedule, by induction) instantiated with the API's footprint table regenerated by a may-write analysis + race-detector run",
+  text="Kernel-checked (api_schedule_disciplined, api_race_free, api_deterministic): for any number of goroutines, any API functions, any sharing of arguments and any interleaving, if every goroutine owns its receivers "
+       "then no two accesses conflict and every written location ends as in the solo run. The premise that an API call writes only through its receiver (api_writes_only_output, 60 functions), that no package variable is written "
+       "and that no slice parameter is written through are re-derived from the source on every run. The harness built with -race runs 8 goroutines per scenario over every API function with shared arguments and compares with sequential results.",
+  note=TB + "Partial: the Go memory model and scheduler are modelled by sequentially consistent interleavings of per-call access sets; the may-write analysis is part of the translator (trusted, cross-checked by the race detector, which only observes executed schedules)."),
  "C17": dict(
   technique="Lean 4 proof about a linker/registry model over the regenerated import closure (intersection over build tags) + build and run of a minimal main per tag",
-  text="Model-level theorem plus run-time evidence: every program linking the package links the implementation of every hash the package requests from the crypto registry, because that implementation is in the "
+  text="Kernel-checked over a linker/registry model: every program linking the package links the implementation of every hash the package requests from the crypto registry, because that implementation is in the "
        "package's own import closure under every build-tag configuration; a plain main importing only the package is built and run per tag and its outputs compared with the executable RFC specification.",
-  note=TB + "Go linker and package initialisation order are modelled, not verified. Level 'other' for that reason."),
+  note=TB + "Partial: the Go linker and package initialisation order are modelled (linked set = import closure; a hash is registered iff its implementing package is linked), not verified; the minimal-main run per build tag is the correspondence."),
  "C18": dict(
   technique="Lean 4 proof over a byte-stream model of Random (rejection loop, Reduce, ToMontgomery proved) + correspondence with a scripted entropy source",
   text="Kernel-checked: for every byte stream Random returns the first 32-byte block whose value mod n is non-zero, reduced and canonical, never zero, and panics exactly when the stream ends before such a block; one conditional subtraction suffices.",
